@@ -11,6 +11,12 @@ schedule below, a corpus case replayed on the real code and a narrow oracle sign
  * `clear` resets the counters in separate steps, so a racing put leaves them wrong for good.
 What is proved instead (`_partial`) is the full claim for every history without expiring
 entries (books: also without `clear`); provenance of `get` answers holds for every history.
+
+Second part (namespace `Cascette.Props.C11.Disk`): DiskCache cut at the `disk.*` schedule points
+(Model/DiskConc, a directory of names over inodes): books at every moment for put / contains /
+remove histories, puts of threads with separate file names (no failure, every value retrievable,
+books), and the witness schedules of the races the tree has (shared `<stem>.tmp`, put vs remove,
+get vs remove, expired-path get vs put).
 -/
 import Cascette.Proofs.MemConc
 import Cascette.Proofs.DiskConc
